@@ -38,7 +38,8 @@ pub async fn copy_with_size<R: AsyncRead, W: AsyncWrite>(
     writer: &mut W,
     buf_size: usize,
 ) -> IoResult<u64> {
-    let mut buf = Vec::with_capacity(buf_size);
+    // A zero-capacity buffer makes every read return 0, which is indistinguishable from EOF.
+    let mut buf = Vec::with_capacity(buf_size.max(1));
     let mut total = 0u64;
 
     loop {
